@@ -102,7 +102,10 @@ def _run_driver(outdir, features=None):
 def extract(features=None, force=False):
     """Return path of a directory with this tree's fact files (extracting if needed)."""
     os.makedirs(CACHE, exist_ok=True)
-    key = tree_hash(features or "")
+    # the driver's own source is part of the key: a changed extractor never reuses facts written by an older one
+    with open(os.path.join(VERIF, "engines", "mirfacts", "src", "main.rs"), "rb") as fh:
+        drv = hashlib.sha256(fh.read()).hexdigest()[:12]
+    key = tree_hash((features or "") + drv)
     d = os.path.join(CACHE, "facts-" + key)
     lock = open(os.path.join(CACHE, "lock"), "w")
     fcntl.flock(lock, fcntl.LOCK_EX)
